@@ -1119,7 +1119,8 @@ def _same_piece(p, q):
 
 def _codepoint_fill(src, n):
     """deterministic position-coded content for an opaque source (printable, codec safe)"""
-    alphabet = 'ABCDEFGHIJKLMNOPQRSTUVWXYZabcdefghijklmnopqrstuvwxyz'
+    # letters, plus the characters whose EBCDIC code differs between cp500 and cp037 (a code-page mix-up shows in the witness)
+    alphabet = 'ABCDEFGHIJKLMNOPQRSTUVWXYZabcdefghijklmnopqrstuvwxyz!^[]|'
     k = sum(ord(c) for c in src.name) % len(alphabet)
     return ''.join(alphabet[(k + 7 * i) % len(alphabet)] for i in range(n))
 
@@ -1134,6 +1135,8 @@ def concretize_source(src, ev):
         data = bytearray(''.join(txt).encode('latin_1'))
         # numerals that the code parsed out of this source (nondeterministic int() outcomes), written back as text
         for chain, d in src.derived.items():
+            if isinstance(chain, tuple) and chain and chain[0] == 'bytes-int':
+                chain = chain[1]
             for (lo, hi) in getattr(d, 'isdig', {}):
                 if (lo, hi) not in d.ints:
                     d.ints[(lo, hi)] = (False, 0)
